@@ -349,8 +349,9 @@ def run_lines(exe, lines, env=None, timeout=300, shards=None):
         while pos < len(chunk):
             data = ("\n".join(chunk[pos:]) + "\n").encode("latin-1")
             try:
+                # the limit is for a hang on ONE line; a long shard on a loaded machine is not a hang
                 r = subprocess.run([exe], input=data, stdout=subprocess.PIPE, stderr=subprocess.PIPE,
-                                   env=env or SAN_ENV, timeout=timeout)
+                                   env=env or SAN_ENV, timeout=timeout + 0.25 * (len(chunk) - pos))
                 rc, so, se = r.returncode, r.stdout, r.stderr
             except subprocess.TimeoutExpired as e:
                 rc, so, se = -999, e.stdout or b"", b"timeout"
@@ -376,6 +377,45 @@ def run_lines(exe, lines, env=None, timeout=300, shards=None):
     with ThreadPoolExecutor(len(chunks)) as ex:
         res = list(ex.map(work, chunks))
     return [x for r in res for x in r]
+
+
+# ---------------------------------------------------------------------------
+# Anchor fingerprints: which of the files a property is anchored in differ from the tree the models were written for
+# ---------------------------------------------------------------------------
+
+def anchor_files(prop):
+    """files (relative to the repository root) named by the property's anchors in properties.jsonl, globs expanded"""
+    import glob
+    out = set()
+    for line in open(os.path.join(VERIF, "properties.jsonl")):
+        p = json.loads(line)
+        if p["id"] != prop:
+            continue
+        for pat in p.get("anchors", {}).get("files", []):
+            for f in glob.glob(os.path.join(REPO, pat)):
+                if os.path.isfile(f) and f.endswith((".cpp", ".h", ".c")):
+                    out.add(os.path.relpath(f, REPO))
+    return sorted(out)
+
+
+def anchor_fingerprint(prop):
+    out = {}
+    for f in anchor_files(prop):
+        out[f] = sha(open(os.path.join(REPO, f), "rb").read())[:16]
+    return out
+
+
+def anchors_changed(prop):
+    """anchor files whose content differs from tools/anchor_fingerprints.json (written by tools/fingerprint_regen.py for
+    the tree the models follow); an unknown property or a missing baseline gives []"""
+    p = os.path.join(VERIF, "tools", "anchor_fingerprints.json")
+    if not os.path.exists(p):
+        return []
+    base = json.load(open(p)).get(prop)
+    if base is None:
+        return []
+    cur = anchor_fingerprint(prop)
+    return sorted(f for f in set(cur) | set(base) if cur.get(f) != base.get(f))
 
 
 # ---------------------------------------------------------------------------
